@@ -63,7 +63,7 @@ typedef struct {
   int prog;			/* 0 addw 1 no rule on target (float on mmx) 2 register exhaustion 3 fatal */
 } Cfg;
 static const char *orc_codes[] = { NULL, "emulate", "backup", "debug", "backup,emulate" };
-static const char *prognames[] = { "addw", "norule", "regs", "fatal", "gpregs" };
+static const char *prognames[] = { "addw", "norule", "regs", "fatal", "gpregs", "resample-read-again", "never-compiled" };
 static const char *scratch;
 
 static int backup_calls;
@@ -119,6 +119,22 @@ static OrcProgram *mk (int kind)
       orc_program_append_str (p, "addl", "d3", "s3", "s4");
       orc_program_append_str (p, "addl", "d4", "s5", "s6");
       break;
+    case 5:
+      /* refused by the sse back end before any code is generated (a resampled array read again): non fatal */
+      p = orc_program_new ();
+      orc_program_add_destination (p, 4, "d1");
+      orc_program_add_source (p, 4, "s1");
+      orc_program_add_source (p, 4, "s2");
+      orc_program_add_temporary (p, 4, "t1");
+      orc_program_add_constant (p, 4, 0, "c1");
+      orc_program_add_constant (p, 4, 0x10000, "c2");
+      orc_program_append_2 (p, "ldresnearl", 0, orc_program_find_var_by_name (p, "t1"), orc_program_find_var_by_name (p, "s1"), orc_program_find_var_by_name (p, "c1"), orc_program_find_var_by_name (p, "c2"));
+      orc_program_append_str (p, "addl", "d1", "t1", "s1");
+      break;
+    case 6:
+      p = orc_program_new_dss (2, 2, 2);
+      orc_program_append_str (p, "addw", "d1", "s1", "s2");
+      break;
     default:
       p = orc_program_new_dss (2, 2, 2);
       orc_program_append_str (p, "addl", "d1", "s1", "s2");	/* size mismatch: fatal */
@@ -131,7 +147,8 @@ static OrcProgram *mk (int kind)
 static void expected (int kind, const unsigned char *s1, const unsigned char *s2, unsigned char *d, int n)
 {
   int i, k;
-  if (kind == 0) for (i = 0; i < n; i++) { unsigned short a, b, r; memcpy (&a, s1 + 2 * i, 2); memcpy (&b, s2 + 2 * i, 2); r = (unsigned short) (a + b); memcpy (d + 2 * i, &r, 2); }
+  if (kind == 5) for (i = 0; i < n; i++) { unsigned a, r; memcpy (&a, s1 + 4 * i, 4); r = a + a; memcpy (d + 4 * i, &r, 4); }
+  else if (kind == 0 || kind == 6) for (i = 0; i < n; i++) { unsigned short a, b, r; memcpy (&a, s1 + 2 * i, 2); memcpy (&b, s2 + 2 * i, 2); r = (unsigned short) (a + b); memcpy (d + 2 * i, &r, 2); }
   else if (kind == 1) for (i = 0; i < n; i++) { float a, b, r; memcpy (&a, s1 + 4 * i, 4); memcpy (&b, s2 + 4 * i, 4); r = a + b; memcpy (d + 4 * i, &r, 4); }
   else for (i = 0; i < n; i++) {
     unsigned short a, b, t[14], r;
@@ -172,10 +189,12 @@ static int one_use (const Cfg * c, char *msg, size_t cap, int *native)
   OrcCode *code = NULL;
   unsigned char s1[64], s2[64], d[64], e[64];
   OrcExecutor exs, *ex = &exs;
-  int i, n = 7, esz = c->prog == 1 ? 4 : 2, before = backup_calls, calls;
+  int i, n = 7, esz = (c->prog == 1 || c->prog == 5) ? 4 : 2, before = backup_calls, calls;
   if (c->backup) orc_program_set_backup_function (p, backup_fn);
   if (c->codeonly == 2) { memset (ex, 0, sizeof (*ex)); orc_executor_set_program (ex, p); }	/* the executor outlives the compile */
   if (c->prog == 1) r = orc_program_compile_for_target (p, orc_target_get_by_name ("mmx"));
+  else if (c->prog == 5) r = orc_program_compile_for_target (p, orc_target_get_by_name ("sse"));
+  else if (c->prog == 6) r = ORC_COMPILE_RESULT_UNKNOWN_COMPILE;	/* never compiled: only the backup function can run it */
   else r = orc_program_compile (p);
   if (c->prog == 3) {
     int ok = ORC_COMPILE_RESULT_IS_FATAL (r);
@@ -372,7 +391,8 @@ int main (int argc, char **argv)
     for (i = 0; i < 3; i++) { snprintf (p, sizeof (p), "%s/d%d", scratch, i); mkdir (p, 0700); }
   }
   for (ei = 0; ei < ne; ei++) for (c.orc_code = 0; c.orc_code < 5; c.orc_code++) for (c.backup = 0; c.backup < 2; c.backup++)
-    for (c.codeonly = 0; c.codeonly < 3; c.codeonly++) for (c.prog = 0; c.prog < 5; c.prog++) {
+    for (c.codeonly = 0; c.codeonly < 3; c.codeonly++) for (c.prog = 0; c.prog < 7; c.prog++) {
+      if (c.prog == 6 && (!c.backup || c.codeonly == 1)) continue;	/* an uncompiled program runs through its backup function only */
       int fail[8], mask, on;
       c.envmask = thorough ? envt[ei] : envq[ei];
       if ((idx++ % nshards) != shard) continue;
